@@ -42,6 +42,9 @@ type dcType struct {
 type dcPkg struct {
 	Name   string   `json:"name"`
 	PkgTag bool     `json:"pkgtag"` // package-level +gengo:deepcopy
+	// PkgInterfaces: +gengo:deepcopy:interfaces=m/obj.Object stands in the package doc as well, so every type of the package
+	// that is not an interface gets DeepCopyObject (the per-type tags are then not written)
+	PkgInterfaces bool `json:"pkginterfaces,omitempty"`
 	Types  []dcType `json:"types"`
 }
 
@@ -193,6 +196,14 @@ func genDCPkg(t *rapid.T, idx int) dcPkg {
 			p.PkgTag = true
 		}
 	}
+	if p.PkgTag && rapid.IntRange(0, 4).Draw(t, "pkginterfaces") == 0 {
+		p.PkgInterfaces = true
+		for i := range p.Types {
+			if p.Types[i].Kind != "iface" {
+				p.Types[i].Interfaces, p.Types[i].Rich = true, false
+			}
+		}
+	}
 	return p
 }
 
@@ -238,6 +249,9 @@ func (p dcPkg) source() string {
 	if p.PkgTag {
 		b.WriteString("// +gengo:deepcopy\n")
 	}
+	if p.PkgInterfaces {
+		b.WriteString("// +gengo:deepcopy:interfaces=m/obj.Object\n")
+	}
 	fmt.Fprintf(b, "package %s\n", p.Name)
 	needObj := false
 	for _, ty := range p.Types {
@@ -257,7 +271,9 @@ func (p dcPkg) source() string {
 		if ty.Tagged {
 			b.WriteString("// +gengo:deepcopy\n")
 		}
-		if ty.Interfaces && ty.Rich {
+		if p.PkgInterfaces {
+			// tag given at package level
+		} else if ty.Interfaces && ty.Rich {
 			b.WriteString("// +gengo:deepcopy:interfaces=m/obj.Rich\n")
 		} else if ty.Interfaces {
 			b.WriteString("// +gengo:deepcopy:interfaces=m/obj.Object\n")
@@ -307,9 +323,7 @@ func (p dcPkg) generated() map[string]bool {
 			switch f.Kind {
 			case "struct", "kind", "labels", "embed", "box":
 				visit(p.typeByName(f.Ref))
-				if f.Kind == "box" {
-					visit(p.typeByName(f.Arg))
-				}
+				// (a type that is only a type ARGUMENT of an instantiation is no dependency: the generic copies its T field by assignment)
 			}
 		}
 	}
@@ -535,7 +549,7 @@ func (p dcPkg) testSource() string {
 					fmt.Fprintf(b, "\t\torigE := %s\n", le.value(ty, arg))
 					le = &litCtx{p: &p, empty: true}
 					fmt.Fprintf(b, "\t\tsnapshotE := %s\n", le.value(ty, arg))
-					b.WriteString("\t\tcpE := (&origE).DeepCopy()\n")
+					b.WriteString("\t\tcpE := (&origE).DeepCopy()\n\t\t_ = cpE\n")
 					fmt.Fprintf(b, "\t\tif cpE == nil || !reflect.DeepEqual(*cpE, origE) {\n\t\t\tt.Fatalf(\"VT-FAIL copy of %s with empty, non-nil containers differs: %%#v vs %%#v\", cpE, origE)\n\t\t}\n", name)
 					for _, c := range cs {
 						path := strings.Replace(c[0], ".", "cpE.", 1)
@@ -561,6 +575,7 @@ func (p dcPkg) testSource() string {
 			switch ty.Kind {
 			case "map":
 				b.WriteString("\t\tif o := orig.DeepCopyObject(); o == nil {\n\t\t\tt.Errorf(\"VT-FAIL DeepCopyObject returned nil\")\n\t\t}\n")
+				fmt.Fprintf(b, "\t\tvar nilMap %s\n\t\tif o := nilMap.DeepCopyObject(); o != nil {\n\t\t\tt.Errorf(\"VT-FAIL DeepCopyObject of a nil %s is not nil: %%#v\", o)\n\t\t}\n", ty.Name, ty.Name)
 			default:
 				b.WriteString("\t\tif o := (&orig).DeepCopyObject(); o == nil {\n\t\t\tt.Errorf(\"VT-FAIL DeepCopyObject returned nil\")\n\t\t}\n")
 			}
